@@ -52,6 +52,9 @@ struct Case {
     restore: Vec<usize>,
     classes: Vec<String>,
     origin: String,
+    /// explicit reproducers only: also report differences the generated
+    /// search excludes because they are listed findings
+    strict: bool,
 }
 
 fn permutation(d: &mut Draw, n: usize) -> Vec<usize> {
@@ -191,6 +194,17 @@ fn gen_case(d: &mut Draw, corpus: &corpus::Corpus) -> Option<Case> {
             classes.push("generated_user_file".into());
         }
     }
+    // a generated file without the final newline (the parser appends one
+    // to its own copy of the text)
+    if d.chance(1, 12) {
+        let cands: Vec<usize> = (0..files.len()).filter(|&i| files[i].path.contains("c06")).collect();
+        if !cands.is_empty() {
+            let i = cands[d.below_usize(cands.len())];
+            let t = files[i].text.trim_end().to_string();
+            files[i].text = t;
+            classes.push("file_without_final_newline".into());
+        }
+    }
     for (k, f) in files.iter_mut().enumerate() {
         f.label = format!("f{k}");
     }
@@ -236,6 +250,7 @@ fn gen_case(d: &mut Draw, corpus: &corpus::Corpus) -> Option<Case> {
         restore,
         classes,
         origin,
+        strict: false,
     })
 }
 
@@ -281,22 +296,139 @@ fn section_kind(name: &str) -> String {
         .join("/")
 }
 
+/// `Token {…, text: "prj", line: 0, column: 0, length: 0, pos: 0, source: Generated(path<X>)}`
+/// → the same with `path<*>`.
+fn wildcard_placeholder_paths(s: &str) -> String {
+    let pat = format!("text: \"{}\", line: 0, column: 0, length: 0, pos: 0, source: Generated(path<", pipe::ROOT_PRJ);
+    let mut out = String::with_capacity(s.len());
+    let mut rest = s;
+    while let Some(p) = rest.find(&pat) {
+        let after = p + pat.len();
+        out.push_str(&rest[..after]);
+        match rest[after..].find(">)") {
+            Some(e) => {
+                out.push('*');
+                rest = &rest[after + e..];
+            }
+            None => {
+                rest = &rest[after..];
+                break;
+            }
+        }
+    }
+    out.push_str(rest);
+    out
+}
+
+/// The listed clock-domain finding, recognised by its cause rather than by
+/// its symptom: a restored file carries the label `'lbl<k>`, it was captured
+/// *before* the file declaring `package lbl<k>` was processed, and it is
+/// restored *after* that file.  (Captured after it, the fragment has to be
+/// refused; restored before it, both runs create the label symbol.)
+fn clock_domain_order_flip(c: &Case, restore: &[usize]) -> bool {
+    for k in 0..8 {
+        let label = format!("'lbl{k} ");
+        let pkg = format!("package lbl{k} ");
+        let Some(fl) = c.files.iter().position(|f| f.text.contains(&label)) else { continue };
+        let Some(fp) = c.files.iter().position(|f| f.text.contains(&pkg)) else { continue };
+        if fl == fp || !restore.contains(&fl) {
+            continue;
+        }
+        let pos = |perm: &[usize], i: usize| perm.iter().position(|&x| x == i).unwrap_or(0);
+        if pos(&c.pi, fl) < pos(&c.pi, fp) && pos(&c.pi2, fp) < pos(&c.pi2, fl) {
+            return true;
+        }
+    }
+    false
+}
+
+fn file_json(f: &FileIn) -> vcore::Value {
+    json!({"label": f.label, "path": f.path, "prj": f.prj, "text": f.text})
+}
+
+fn file_from_json(v: &vcore::Value) -> Option<FileIn> {
+    Some(FileIn {
+        label: v.get("label")?.as_str()?.to_string(),
+        path: v.get("path")?.as_str()?.to_string(),
+        prj: v.get("prj")?.as_str()?.to_string(),
+        text: v.get("text")?.as_str()?.to_string(),
+    })
+}
+
+/// The case written out; also the payload format of the `explicit` sub-check
+/// (`{"property":"C06","sub":"explicit","payload":{…}}`).
+fn case_json(c: &Case) -> vcore::Value {
+    json!({
+        "files": c.files.iter().map(file_json).collect::<Vec<_>>(),
+        "fillers": c.fillers.iter().map(file_json).collect::<Vec<_>>(),
+        "fillers_in_capture_run": c.fa, "fillers_in_restore_run": c.fb,
+        "capture_order": c.pi, "restore_order": c.pi2, "restored": c.restore,
+        "classes": c.classes, "origin": c.origin, "strict": c.strict,
+    })
+}
+
+fn case_from_json(v: &vcore::Value) -> Option<Case> {
+    let files: Vec<FileIn> = v.get("files")?.as_array()?.iter().map(file_from_json).collect::<Option<_>>()?;
+    let fillers: Vec<FileIn> = match v.get("fillers").and_then(|x| x.as_array()) {
+        Some(a) => a.iter().map(file_from_json).collect::<Option<_>>()?,
+        None => vec![],
+    };
+    let us = |k: &str| v.get(k).and_then(|x| x.as_u64()).unwrap_or(0) as usize;
+    let list = |k: &str| -> Option<Vec<usize>> {
+        Some(v.get(k)?.as_array()?.iter().map(|x| x.as_u64().unwrap_or(0) as usize).collect())
+    };
+    let n = files.len();
+    let ident: Vec<usize> = (0..n).collect();
+    let is_perm = |p: &Vec<usize>| {
+        let mut q = p.clone();
+        q.sort();
+        q == ident
+    };
+    let pi = list("capture_order").unwrap_or_else(|| ident.clone());
+    let pi2 = list("restore_order").unwrap_or_else(|| ident.clone());
+    let restore = list("restored")?;
+    if !is_perm(&pi) || !is_perm(&pi2) || restore.iter().any(|&i| i >= n) || us("fillers_in_capture_run") > fillers.len() || us("fillers_in_restore_run") > fillers.len() {
+        return None;
+    }
+    Some(Case {
+        files,
+        fillers,
+        fa: us("fillers_in_capture_run"),
+        fb: us("fillers_in_restore_run"),
+        pi,
+        pi2,
+        restore,
+        classes: v.get("classes").and_then(|x| x.as_array()).map(|a| a.iter().filter_map(|x| x.as_str().map(String::from)).collect()).unwrap_or_default(),
+        origin: v.get("origin").and_then(|x| x.as_str()).unwrap_or("explicit").to_string(),
+        strict: v.get("strict").and_then(|x| x.as_bool()).unwrap_or(false),
+    })
+}
+
 fn run_case(d: &mut Draw, corpus: &corpus::Corpus) -> Outcome {
     let Some(c) = gen_case(d, corpus) else {
         return Outcome::skip("drawn corpus roots need more than 14 files");
     };
+    decide(&c)
+}
+
+fn decide(c: &Case) -> Outcome {
+    match decide_inner(c) {
+        Outcome::Fail(mut f) if f.signature.starts_with("FLIP:") => {
+            f.signature = "clock-domain-label:pass1-resolves-it-against-symbols-of-earlier-files".to_string();
+            Outcome::Fail(f)
+        }
+        o => o,
+    }
+}
+
+fn decide_inner(c: &Case) -> Outcome {
     let order = |fill: usize, perm: &[usize]| -> Vec<FileIn> {
         let mut v: Vec<FileIn> = c.fillers[..fill].to_vec();
         v.extend(perm.iter().map(|&i| c.files[i].clone()));
         v
     };
     let names: Vec<String> = c.files.iter().map(|f| f.path.rsplit('/').next().unwrap().to_string()).collect();
-    let input = json!({
-        "files": c.files.iter().map(|f| json!({"label": f.label, "path": f.path, "prj": f.prj, "text": if f.path.contains("c06") { f.text.clone() } else { "(repository file, unchanged)".to_string() }})).collect::<Vec<_>>(),
-        "fillers": c.fillers.iter().map(|f| f.text.clone()).collect::<Vec<_>>(),
-        "fillers_in_capture_run": c.fa, "fillers_in_restore_run": c.fb,
-        "capture_order": c.pi, "restore_order": c.pi2, "restored": c.restore,
-    });
+    let input = case_json(c);
 
     // ---- run A: capture ------------------------------------------------
     let files_a = order(c.fa, &c.pi);
@@ -397,7 +529,23 @@ fn run_case(d: &mut Draw, corpus: &corpus::Corpus) -> Outcome {
         }
     };
 
+    if let Ok(dir) = std::env::var("VERIF_C06_DUMPDIR") {
+        // development aid: all dump sections of both runs, for `diff -r`
+        for (tag, r) in [("restored", &rest), ("fresh", &fresh)] {
+            let base = format!("{dir}/{tag}");
+            let _ = std::fs::create_dir_all(&base);
+            for (n, t) in r.sections.iter().chain(&r.raw_sections) {
+                let _ = std::fs::write(format!("{base}/{}", n.replace('/', "__")), t);
+            }
+            let _ = std::fs::write(format!("{base}/diags"), format!("{:#?}", r.diags));
+            let _ = std::fs::write(format!("{base}/how"), format!("{:?}\n{:?}", r.how, r.slots));
+        }
+        for f in &files_b {
+            let _ = std::fs::write(format!("{dir}/{}.veryl", f.label), &f.text);
+        }
+    }
     // ---- oracle --------------------------------------------------------
+    let flip = if clock_domain_order_flip(c, &restore) { "FLIP:" } else { "" };
     let mut fallback = false;
     for (k, h) in rest.how.iter().enumerate() {
         match h {
@@ -414,7 +562,7 @@ fn run_case(d: &mut Draw, corpus: &corpus::Corpus) -> Outcome {
     }
     if rest.reached != fresh.reached {
         return Outcome::fail(
-            "stage-reached-differs",
+            format!("{flip}stage-reached-differs"),
             format!("{what}: restored run ends at {:?}, fresh run at {:?}", rest.reached, fresh.reached),
             input,
         );
@@ -427,7 +575,7 @@ fn run_case(d: &mut Draw, corpus: &corpus::Corpus) -> Outcome {
         let only_f: Vec<String> = df.iter().filter(|x| !dr.contains(x)).map(|x| format!("[{}] {} {} @{} {:?}", x.stage, x.code, x.message, x.path, x.spans)).collect();
         let stage = dr.iter().filter(|x| !df.contains(x)).chain(df.iter().filter(|x| !dr.contains(x))).map(|x| x.stage).next().unwrap_or("count");
         return Outcome::fail(
-            format!("diagnostics-differ:{stage}{}", if fallback { ":after-fallback" } else { "" }),
+            format!("{flip}diagnostics-differ:{stage}{}", if fallback { ":after-fallback" } else { "" }),
             format!("{what}: only with the restored fragment {only_r:?}; only with a fresh parse {only_f:?}"),
             input,
         );
@@ -435,10 +583,26 @@ fn run_case(d: &mut Draw, corpus: &corpus::Corpus) -> Outcome {
     if rest.sections.len() != fresh.sections.len() {
         return Outcome::fail("state-differs:section-count", format!("{what}: {} vs {} dump sections", rest.sections.len(), fresh.sections.len()), input);
     }
+    let is_texts = |n: &str| n.ends_with("/texts");
+    let mut placeholder_diff: Option<String> = None;
     for ((nr, tr), (nf, tf)) in rest.sections.iter().zip(&fresh.sections) {
+        if is_texts(nr) {
+            continue; // compared last, see below
+        }
         if nr != nf || tr != tf {
+            // Listed finding, excluded from the generated search: a
+            // `Token::default()` placeholder is (StrId(0), PathId(0)) = the
+            // first string / path interned by the run; the codec stores it by
+            // value, so after a restore it names the first path of the
+            // capture run.  Compare again with those paths wildcarded.
+            if nr == nf && wildcard_placeholder_paths(tr) == wildcard_placeholder_paths(tf) {
+                if placeholder_diff.is_none() {
+                    placeholder_diff = Some(format!("dump `{nr}`; {}", first_diff(tr, tf)));
+                }
+                continue;
+            }
             return Outcome::fail(
-                format!("state-differs:{}{}", section_kind(nr), if fallback { ":after-fallback" } else { "" }),
+                format!("{flip}state-differs:{}{}", section_kind(nr), if fallback { ":after-fallback" } else { "" }),
                 format!("{what}: dump `{nr}` differs between the run that restores the fragment and the run that parses the file; {}", first_diff(tr, tf)),
                 input,
             );
@@ -471,6 +635,33 @@ fn run_case(d: &mut Draw, corpus: &corpus::Corpus) -> Outcome {
         }
         if mr != mf {
             return Outcome::fail("source-map-differs", format!("{what}: source map of {lr} differs"), input);
+        }
+    }
+
+    if let Some(d) = &placeholder_diff {
+        if c.strict {
+            return Outcome::fail(
+                "default-token:restored-placeholder-names-first-path-of-the-capture-run",
+                format!("{what}: {d}"),
+                input,
+            );
+        }
+        classes.push("excluded(listed finding): default-token placeholder path".into());
+    }
+    // the text-table entry of the file, last: everything a later stage
+    // consumes was equal
+    for ((nr, tr), (_, tf)) in rest.sections.iter().zip(&fresh.sections) {
+        if is_texts(nr) && tr != tf {
+            let no_newline = restore.iter().any(|&i| !c.files[i].text.ends_with('\n'));
+            return Outcome::fail(
+                if no_newline {
+                    "text-table:restored-text-lacks-the-final-newline-a-parse-appends".to_string()
+                } else {
+                    format!("state-differs:{}", section_kind(nr))
+                },
+                format!("{what}: the text table entry of the restored file differs from the one a parse registers; {}", first_diff(tr, tf)),
+                input,
+            );
         }
     }
 
@@ -525,9 +716,79 @@ fn run_case(d: &mut Draw, corpus: &corpus::Corpus) -> Outcome {
     Outcome::pass(key, nontrivial, classes, what)
 }
 
+/// Development aid: every feature template alone (declarations in one file,
+/// users in another) must analyse without errors.
+fn selftest_templates() {
+    for (w, name) in vgenr::all_feature_names().iter().enumerate() {
+        for variant in 0..4u32 {
+            let files: Vec<FileIn> = vgenr::single_feature(w as u32, variant)
+                .into_iter()
+                .enumerate()
+                .map(|(k, (n, text))| FileIn {
+                    label: format!("f{k}"),
+                    path: format!("{}/testcases/veryl/c06_{n}.veryl", vcore::util::repo_root()),
+                    text,
+                    prj: pipe::ROOT_PRJ.to_string(),
+                })
+                .collect();
+            let roles = vec![Role::Parse; files.len()];
+            match isolated(files.clone(), roles, true) {
+                Err(p) => println!("TEMPLATE {w}/{variant} {name}: PANIC {p}"),
+                Ok(r) => {
+                    let errs: Vec<String> = r.diags.iter().map(|x| format!("[{}{}] {} {} @{}", x.stage, if x.is_error { " ERROR" } else { "" }, x.code, x.message, x.path.rsplit('/').next().unwrap_or(""))).collect();
+                    println!("TEMPLATE {w}/{variant} {name}: {:?} captured={:?} {errs:?}", r.reached, r.captured.iter().map(|c| matches!(c, Some(Ok(_)))).collect::<Vec<_>>());
+                    if let Reached::ParseError(_) = r.reached {
+                        for f in &files {
+                            println!("--- {}\n{}", f.path, f.text);
+                        }
+                    }
+                }
+            }
+        }
+    }
+}
+
 pub fn run(ctx: &Ctx) {
+    if let Ok(list) = std::env::var("VERIF_C06_TRYFILES") {
+        // development aid: analyse the given files as one project, print diagnostics
+        let files: Vec<FileIn> = list
+            .split(',')
+            .enumerate()
+            .map(|(k, p)| FileIn {
+                label: format!("f{k}"),
+                path: p.to_string(),
+                text: std::fs::read_to_string(p).expect("read"),
+                prj: pipe::ROOT_PRJ.to_string(),
+            })
+            .collect();
+        let roles = vec![Role::Parse; files.len()];
+        match isolated(files, roles, true) {
+            Err(p) => println!("PANIC {p}"),
+            Ok(r) => {
+                println!("{:?}", r.reached);
+                for x in &r.diags {
+                    println!("[{}{}] {} {} @{} {:?}", x.stage, if x.is_error { " ERROR" } else { "" }, x.code, x.message, x.path, x.spans);
+                }
+                if std::env::var("VERIF_C06_DUMP").is_ok() {
+                    for (n, t) in &r.sections {
+                        println!("=== {n}\n{t}");
+                    }
+                }
+            }
+        }
+        std::process::exit(2);
+    }
+    if std::env::var("VERIF_C06_SELFTEST").is_ok() {
+        selftest_templates();
+        std::process::exit(2);
+    }
     let corpus = corpus::load();
     let n = std::env::var("VERIF_C06_CASES").ok().and_then(|x| x.parse().ok()).unwrap_or_else(|| ctx.scale(400, 20_000));
+    // explicit cases: `--replay` of a written-out case, reproducers of listed findings
+    ctx.run_payloads("explicit", |p| match case_from_json(p) {
+        Some(c) => decide(&c),
+        None => Outcome::skip("malformed explicit case"),
+    });
     ctx.run("restore", CaseCfg::cases(n).choices(1200).stack_mb(16), |d| run_case(d, &corpus));
     ctx.assume("in-process: the harness calls fragment_cache::{watermark,capture,restore}, Fragment::{to_bytes,from_bytes}, scope::set_project and Analyzer::drop_file in the order pipeline.rs / incremental.rs (CLI) and server.rs / incremental.rs (language server) do; the on-disk store (veryl_cache::Store) is C29's subject");
     ctx.assume("a restored file gets no pass 2 and is not emitted (the pipeline has no AST for it); its fresh-parse counterpart is treated the same way, so the comparison isolates the fragment");
